@@ -450,11 +450,12 @@ package nbio
 //@ ghost Conn.gJBase : Int
 //@ ghost Conn.gJSub : Int
 //@ ghost Conn.gJRun : Int
+//@ ghost Conn.gJobAt : (Array Int Int)
 //@ ghost local Conn.gDToken : Bool
 //@ ghost local Conn.gDNext : Int
 //@ ghost local Conn.gJLenSnap : Int
-//@ pred JobInv(c *Conn) := (c.gJActive == (len(c.jobList) > 0)) && (c.gJActive ==> 0 <= c.gJNext && c.gJNext < len(c.jobList)) && c.gJSub == c.gJBase + len(c.jobList) && c.gJRun == c.gJBase + ite(c.gJActive, c.gJNext + 1, 0) && (c.gJActive ==> c.gJNext == c.gDNext) && (c.gDToken ==> c.gJActive)
-//@ protected Conn by mux: jobList, elems(jobList), gJActive, gJNext, gJBase, gJSub, gJRun
+//@ pred JobInv(c *Conn) := (c.gJActive == (len(c.jobList) > 0)) && (c.gJActive ==> 0 <= c.gJNext && c.gJNext < len(c.jobList)) && c.gJSub == c.gJBase + len(c.jobList) && c.gJRun == c.gJBase + ite(c.gJActive, c.gJNext + 1, 0) && (c.gJActive ==> c.gJNext == c.gDNext) && (c.gDToken ==> c.gJActive) && (forall p int {mem(c.jobList, p)} :: off(c.jobList) + c.gJNext < p && p < off(c.jobList) + len(c.jobList) && c.gJActive ==> mem(c.jobList, p) == c.gJobAt[c.gJBase + p - off(c.jobList)])
+//@ protected Conn by mux: jobList, elems(jobList), gJActive, gJNext, gJBase, gJSub, gJRun, gJobAt
 //@ moninv jobs: JobInv(self)                                                             // prop C05
 
 //@ fieldfunc nbio.Engine.Execute
@@ -477,7 +478,7 @@ package nbio
 //@   ensures retired: !c.gDToken && !holds(c.mux)                                         // prop C05
 //@   assigns everything, Conn.gDToken, Conn.gDNext
 //@   at unlock#1 ghost { c.gJBase = c.gJBase + i; c.gJActive = false; c.gDToken = false }
-//@   at unlock#2 assert order: c.gJBase + i == c.gJRun && i == c.gJNext + 1                 // prop C05
+//@   at unlock#2 assert order: c.gJBase + i == c.gJRun && i == c.gJNext + 1 && job == c.gJobAt[c.gJBase + i]   // prop C05
 //@   at unlock#2 ghost { c.gJNext = i; c.gDNext = i; c.gJRun = c.gJRun + 1 }
 //@   loop 1
 //@     invariant c.gDToken && i == c.gDNext && !holds(c.mux) && i >= 0
@@ -499,7 +500,7 @@ package nbio
 //@   at lock#1 ghost { c.gJLenSnap = len(c.jobList) }
 //@   at unlock#1 assert untouched: len(c.jobList) == c.gJLenSnap                            // prop C05 C03
 //@   at unlock#2 assert tail: len(c.jobList) == c.gJLenSnap + 1                             // prop C05
-//@   at unlock#2 ghost { c.gJSub = c.gJSub + 1; c.gJRun = c.gJRun + ite(c.gJLenSnap == 0, 1, 0); c.gJNext = ite(c.gJLenSnap == 0, 0, c.gJNext); c.gDNext = ite(c.gJLenSnap == 0, 0, c.gDNext); c.gDToken = (c.gJLenSnap == 0); c.gJActive = true }
+//@   at unlock#2 ghost { c.gJobAt[c.gJSub] = job; c.gJSub = c.gJSub + 1; c.gJRun = c.gJRun + ite(c.gJLenSnap == 0, 1, 0); c.gJNext = ite(c.gJLenSnap == 0, 0, c.gJNext); c.gDNext = ite(c.gJLenSnap == 0, 0, c.gDNext); c.gDToken = (c.gJLenSnap == 0); c.gJActive = true }
 
 //@ func (*Conn).MustExecute
 //@   props C05
@@ -509,4 +510,4 @@ package nbio
 //@   assigns everything, Conn.gDToken, Conn.gDNext
 //@   at lock#1 ghost { c.gJLenSnap = len(c.jobList) }
 //@   at unlock#1 assert tail: len(c.jobList) == c.gJLenSnap + 1                             // prop C05
-//@   at unlock#1 ghost { c.gJSub = c.gJSub + 1; c.gJRun = c.gJRun + ite(c.gJLenSnap == 0, 1, 0); c.gJNext = ite(c.gJLenSnap == 0, 0, c.gJNext); c.gDNext = ite(c.gJLenSnap == 0, 0, c.gDNext); c.gDToken = (c.gJLenSnap == 0); c.gJActive = true }
+//@   at unlock#1 ghost { c.gJobAt[c.gJSub] = job; c.gJSub = c.gJSub + 1; c.gJRun = c.gJRun + ite(c.gJLenSnap == 0, 1, 0); c.gJNext = ite(c.gJLenSnap == 0, 0, c.gJNext); c.gDNext = ite(c.gJLenSnap == 0, 0, c.gDNext); c.gDToken = (c.gJLenSnap == 0); c.gJActive = true }
